@@ -35,6 +35,8 @@ def queries(tier):
             continue
         seen.add((w, two))
         w2 = w[:-2] if (w.endswith(" Z") and ",1)" in w.replace("T(0,1)", "").replace("T(1,1)", "") and tier == "quick") else w
+        if "R(0,2,1)" in w and " X(" in w:
+            w2 = w   # close with two receives pending after one was cancelled: the close IS the subject (these finish in seconds)
         defs = {"SKEL": w2}
         if two:
             defs["TWOCTX"] = 1
